@@ -69,6 +69,11 @@ def run_cases(rec, tier, seed):
         elif r < 0.5:
             tg = rnd.sample(range(0, 50), 3)
             mapping = {v: rnd.choice(tg) for v in vals}
+            if rnd.random() < 0.5:
+                # a fixed code book: the mapping also mentions values that do not occur in this array
+                for extra in range(max(U) + 2, max(U) + 2 + rnd.randint(1, 6)):
+                    if abs(extra) < 2 ** 62:
+                        mapping[extra] = rnd.choice(tg + [51, 52, 53])
         if mapping is not None and common is not None and common not in mapping:
             mapping[common] = rnd.choice(list(mapping.values()))
         counts = {v: int((a == v).sum()) for v in vals} if rnd.random() < 0.5 else None
